@@ -7,7 +7,7 @@ which the driver reports as undecided (never as a pass).
 import ast
 import z3
 
-from .values import (Ref, Arr, Closure, BoundMethod, ModuleV, Opaque, Unsupported, PyRaise,
+from .values import (Opt, Ref, Arr, Closure, BoundMethod, ModuleV, Opaque, Unsupported, PyRaise,
                      is_sym, is_conc, to_z3, fresh_scalar, fresh_arr, kind_of, is_int_like,
                      is_real_like, is_bool_like, fresh_name, z3sort)
 from .state import State, Outcome, Obligation
@@ -270,7 +270,10 @@ class Interp:
         if isinstance(s, ast.AugAssign):
             def k(st, rhs):
                 cur = self.eval(s.target, st, module)
-                if isinstance(cur, Ref) and cur.kind == "arr":
+                if isinstance(s.target, ast.Subscript):
+                    # a[idx] op= v : read, combine, store back through the subscript (the read yields a copy)
+                    self.assign(s.target, self.binop(s.op, cur, rhs, st, s), st, module)
+                elif isinstance(cur, Ref) and cur.kind == "arr":
                     # numpy in-place operator: the cell is updated, aliases see it
                     newv = self.binop(s.op, cur, rhs, st, s)
                     st.set_arr(cur, st.arr(newv))
@@ -520,15 +523,23 @@ class Interp:
         k = kind_of(v)
         if k is not None:
             return fresh_scalar(k, name)
+        if isinstance(v, Opt):
+            return Opt(fresh_scalar("bool", name + "_present"), self.havoc_value(state, v.value, name, spec))
         if v is None or isinstance(v, (str, Opaque, Closure, tuple)):
             return v if not isinstance(v, tuple) else tuple(self.havoc_value(state, x, name, spec) for x in v)
         raise Unsupported(f"cannot havoc loop variable {name} of type {type(v).__name__}")
 
     def havoc_loop(self, state, body, spec, extra=()):
         rebound, inplace, attrs = self.assigned_names(body)
-        for nm in sorted(rebound | set(extra)):
+        forced = {k_ for k_, v_ in (spec.fresh.items() if spec and hasattr(spec.fresh, "items") else []) if callable(v_)}
+        for nm in sorted(rebound | set(extra) | forced):
             if nm in (spec.fresh if spec else {}):
                 kd = spec.fresh[nm]
+                if callable(kd):
+                    state.env[nm] = kd(state)
+                    continue
+                if isinstance(kd, tuple) and kd[0] == "list":
+                    continue       # handled with the appended lists below
                 if isinstance(kd, tuple) and kd[0] == "arr":
                     state.env[nm] = state.new_arr(fresh_arr(kd[2], kd[1], nm))
                 else:
@@ -760,6 +771,19 @@ class Interp:
             elem = (lambda kk: a.at(kk)) if a.ndim == 1 else None
             if elem is None:
                 raise Unsupported("iteration over n-d array")
+        elif (isinstance(it, Opaque) and it.tag == "enumerate") or (isinstance(it, Ref) and it.kind == "list" and "__symlen__" in state.cell(it)):
+            seq = it.info["seq"] if isinstance(it, Opaque) else it
+            c = state.cell(seq)
+            lo, n = 0, c["__symlen__"]
+            sel = c["__symelem__"]
+            with_index = isinstance(it, Opaque)
+
+            def elem(kk, sel=sel, with_index=with_index):
+                v = sel(kk)
+                if isinstance(v, Arr):
+                    v = None      # bound below on the body state (needs allocation)
+                return (kk, v) if with_index else v
+            state.ghost["__iter_seq__"] = (seq, with_index)
         else:
             raise Unsupported(f"for over {it!r}")
         lo_z, n_z = to_z3(lo, "int"), to_z3(n, "int")
@@ -777,14 +801,26 @@ class Interp:
         ex.assume(kk == z3.If(n_z >= lo_z, n_z, lo_z))
         exits, others = [], []
         if self.feasible(ex):
-            for nm in names:
-                if nm in state.env:
-                    pass
+            if isinstance(s.target, ast.Name) and isinstance(it, Opaque) and it.tag == "range":
+                # after exhaustion the loop variable holds the last value (if the loop ran at all; otherwise it keeps its old binding)
+                last = kk - 1
+                old = state.env.get(s.target.id)
+                if old is None or not (is_sym(old) or isinstance(old, int)):
+                    ex.env[s.target.id] = last
+                else:
+                    ex.env[s.target.id] = z3.If(n_z > lo_z, last, to_z3(old, "int"))
             exits.append(ex)
         body_st = head
         body_st.assume(kk < n_z)
         if self.feasible(body_st):
-            self.assign(s.target, elem(kk), body_st, module)
+            item = elem(kk)
+            if "__iter_seq__" in state.ghost and ((isinstance(item, tuple) and item[1] is None) or item is None):
+                seq, with_index = state.ghost["__iter_seq__"]
+                ev = body_st.cell(seq)["__symelem__"](kk) if seq.oid in body_st.heap else state.cell(seq)["__symelem__"](kk)
+                ref = body_st.new_arr(ev)
+                body_st.ghost["__iter_elem__"] = (seq, kk, ref)
+                item = (kk, ref) if with_index else ref
+            self.assign(s.target, item, body_st, module)
             snap = self.heap_snapshot(body_st)
             for o in self.exec_block(s.body, body_st, module):
                 self.frame_check(snap, o.state, s.body, spec, s)
@@ -802,6 +838,12 @@ class Interp:
         if isinstance(target, ast.Name):
             state.env[target.id] = value
         elif isinstance(target, (ast.Tuple, ast.List)):
+            if isinstance(value, Opt):
+                # unpacking None raises TypeError: the value must be present
+                self.oblige(f"unpacked-value-is-not-None@{target.lineno}", state, value.flag, target,
+                            note="cannot unpack non-iterable NoneType object")
+                state.assume(value.flag)
+                value = value.value
             if isinstance(value, Ref) and value.kind == "list":
                 value = tuple(state.cell(value)["__list__"])
             if isinstance(value, Ref) and value.kind == "arr":
@@ -1315,6 +1357,8 @@ class Interp:
                 raise PyRaise("ValueError", "truth value of an array is ambiguous")
         if isinstance(v, (Opaque, Closure)):
             return True
+        if isinstance(v, Opt):
+            return v.flag
         raise Unsupported(f"truth value of {v!r}")
 
     def binop(self, op, l, r, st, node):
